@@ -185,13 +185,20 @@ struct State
     max_blocked : usize,
     replay_pos : usize,
     replay_diverged : bool,
+    /* one condition variable per logical thread: a hand-off wakes only the thread that gets the baton */
+    cvs : Vec<Arc<Condvar>>,
 }
 
 pub struct Sched
 {
     st : Mutex<State>,
-    cv : Condvar,
+    exit_cv : Condvar,
     observer : Option<Arc<dyn SendObserver>>,
+}
+
+fn wake_all(st : &State)
+{
+    for cv in st.cvs.iter() { cv.notify_all(); }
 }
 
 #[derive(Clone, Debug, Default)]
@@ -340,7 +347,7 @@ impl Sched
         {
             st.step_exceeded = true;
             st.aborted = true;
-            self.cv.notify_all();
+            wake_all(&st);
             if st.th[me] == Th::Finished { return; }
             drop(st);
             resume_unwind(Box::new(AbortToken));
@@ -353,7 +360,7 @@ impl Sched
                 st.cur = next;
                 if next != me
                 {
-                    self.cv.notify_all();
+                    st.cvs[next].notify_all();
                 }
             },
             None =>
@@ -363,7 +370,7 @@ impl Sched
                 {
                     st.deadlock = Some(Sched::describe_blocked(&st));
                     st.aborted = true;
-                    self.cv.notify_all();
+                    wake_all(&st);
                     if st.th[me] == Th::Finished { return; }
                     drop(st);
                     resume_unwind(Box::new(AbortToken));
@@ -377,9 +384,10 @@ impl Sched
             return;
         }
 
+        let cv = st.cvs[me].clone();
         while !(st.aborted || (st.cur == me && st.th[me] == Th::Runnable))
         {
-            st = self.cv.wait(st).unwrap_or_else(|e| e.into_inner());
+            st = cv.wait(st).unwrap_or_else(|e| e.into_inner());
         }
         if st.aborted
         {
@@ -401,9 +409,10 @@ impl Sched
     fn wait_first_turn(&self, me : usize) -> Result<(), ()>
     {
         let mut st = self.lock();
+        let cv = st.cvs[me].clone();
         while !(st.aborted || (st.cur == me && st.th[me] == Th::Runnable))
         {
-            st = self.cv.wait(st).unwrap_or_else(|e| e.into_inner());
+            st = cv.wait(st).unwrap_or_else(|e| e.into_inner());
         }
         if st.aborted { Err(()) } else { Ok(()) }
     }
@@ -431,7 +440,7 @@ impl Sched
             }
             if st.aborted
             {
-                self.cv.notify_all();
+                wake_all(&st);
                 return;
             }
             if st.cur != me
@@ -447,7 +456,7 @@ impl Sched
     {
         let mut st = self.lock();
         st.live_os_threads -= 1;
-        self.cv.notify_all();
+        self.exit_cv.notify_all();
     }
 }
 
@@ -509,8 +518,9 @@ pub fn run_controlled<R>(
             max_blocked : 0,
             replay_pos : 0,
             replay_diverged : false,
+            cvs : vec![Arc::new(Condvar::new())],
         }),
-        cv : Condvar::new(),
+        exit_cv : Condvar::new(),
         observer : observer,
     });
 
@@ -554,12 +564,12 @@ pub fn run_controlled<R>(
         {
             st.aborted = true;
         }
-        sched.cv.notify_all();
+        wake_all(&st);
         while st.live_os_threads > 0
         {
-            let (guard, _timeout) = sched.cv.wait_timeout(st, std::time::Duration::from_millis(200)).unwrap_or_else(|e| e.into_inner());
+            let (guard, _timeout) = sched.exit_cv.wait_timeout(st, std::time::Duration::from_millis(200)).unwrap_or_else(|e| e.into_inner());
             st = guard;
-            sched.cv.notify_all();
+            wake_all(&st);
         }
     }
     set_ctx(saved);
@@ -767,6 +777,7 @@ pub mod thread
                     st.th.push(Th::Runnable);
                     let p = 1_000_000 + st.rng.next_u64() % 1_000_000;
                     st.prio.push(p);
+                    st.cvs.push(Arc::new(Condvar::new()));
                     st.live_os_threads += 1;
                     st.th.len() - 1
                 };
